@@ -50,8 +50,8 @@ func widthOfType(t types.Type) string {
 
 // storeTargetOf: where value v (possibly through conversions) is stored: "field:Struct.Field" or "".
 func storeTargetOf(v ssa.Value, depth int) string {
-	if depth > 4 {
-		return ""
+	if depth > 4 || v.Referrers() == nil {
+		return "" // (a package-level variable or a function has no referrer list)
 	}
 	for _, ref := range *v.Referrers() {
 		switch x := ref.(type) {
@@ -176,6 +176,9 @@ func (c *Ctx) akaDecodePaths(fn *ssa.Function) (header akaPath, cases []akaPath,
 			} else {
 				// buffer later read by Uint16 and stored
 				for _, cand := range []ssa.Value{buf, root} {
+					if cand == nil || cand.Referrers() == nil {
+						continue // a package-level buffer has no referrer list: nothing is read back from it here
+					}
 					for _, ref := range *cand.Referrers() {
 						if c2, ok := ref.(*ssa.Call); ok && c2 != call {
 							if cc := c2.Call.StaticCallee(); cc != nil && strings.HasPrefix(cc.String(), "(encoding/binary.bigEndian).Uint") {
@@ -741,6 +744,18 @@ func (c *Ctx) akaEncodePaths(fn *ssa.Function) (header akaPath, body []akaPath, 
 		case "(*bytes.Buffer).WriteByte":
 			return []akaTok{octetTok(call.Call.Args[1], c.InstrPos(ins))}
 		case "(*bytes.Buffer).Write":
+			// a field of octets, or zero padding made on the spot: what binary.Write of the same value gives
+			if src := call.Call.Args[1]; true {
+				if _, ok := src.(*ssa.MakeSlice); ok {
+					return []akaTok{{W: "v", To: "pad", Pos: c.InstrPos(ins)}}
+				}
+				if fk, ok := fieldKeyOfLoad(src); ok {
+					return []akaTok{{W: "v", To: "field:" + fk, Pos: c.InstrPos(ins)}}
+				}
+				if k, ok := src.(*ssa.Const); ok && k.Value == nil {
+					return nil
+				}
+			}
 			// a slice literal: the octets stored into its backing array, in index order
 			sl, ok := call.Call.Args[1].(*ssa.Slice)
 			if !ok {
